@@ -15,6 +15,7 @@ def _spaces(tier):
     else:
         sp = [('CLS<=4', one, 4, ''), ('CLS2<=3', cls2, 3, ''),
               ('LEX<=4 raw', spaces.LEX, 4, ''), ('LEX<=3 blank', spaces.LEX, 3, ' ')]
+    sp.append(('SPC<=3 raw', spaces.SPC, 3, ''))
     return sp, info
 
 
@@ -71,7 +72,11 @@ def run(tier, seed):
         if w < 1:
             viols.append({'kind': 'zero-width-rule', 'sig': rx[:60], 'detail': 'getwidth()[0] == 0',
                           'text': rx, 'size': 0})
-    merged, sizes = e1.run(sp, _evaluate, seed, bits=26 if tier == 'thorough' else 22, setup=_setup)
+    allcp = [chr(c) for c in range(0x110000)]
+    ctx = ['a'] if tier == 'quick' else ['a', ' ', "'", '1', '-']
+    extra = [('ALLCP alone and in context', [(c,) for c in allcp] + [(c, x) for x in ctx for c in allcp] + [(x, c) for x in ctx for c in allcp], '')]
+    merged, sizes = e1.run(sp, _evaluate, seed, bits=27 if tier == 'thorough' else 24, setup=_setup,
+                           extra_cases=extra)
     cov = {
         'evaluations': merged['n'],
         'distinct_nontrivial': merged['distinct'],
